@@ -115,6 +115,26 @@ func c02Programs(tier string) []*Spec {
 			}
 		}
 	}
+	// a priority change addressed to a bar that has already been dropped from the container
+	for _, rf := range []string{"auto", "manual"} {
+		for _, lazy := range []bool{false, true} {
+			sp := &Spec{Name: fmt.Sprintf("c02-prio-removed-%v", lazy), Refresh: rf, Q: -1}
+			sp.Bars = []BarSpec{{Total: 3}, {Total: 3}, {Total: 3}}
+			sp.Main = []Op{{K: "add", B: 0}, {K: "add", B: 1}, {K: "add", B: 2}}
+			drop := []Op{{K: "abort", B: 2, F: true}, {K: "barwait", B: 2}}
+			if rf == "manual" {
+				drop = append(drop, Op{K: "refresh"}, Op{K: "refresh"}, Op{K: "refresh"}, Op{K: "refresh"})
+			}
+			drop = append(drop, Op{K: "prio", B: 2, N: 0, F: lazy}, Op{K: "prio", B: 1, N: 9, F: lazy})
+			fin := []Op{{K: "incr", B: 0, N: 3}, {K: "incr", B: 1, N: 3}}
+			if rf == "manual" {
+				fin = append(fin, Op{K: "refresh"}, Op{K: "refresh"})
+			}
+			sp.Clients = [][]Op{append(drop, fin...)}
+			sp.Late = c02Late
+			out = append(out, sp)
+		}
+	}
 	// n > q: the same late-call battery around a container whose request queue is always full
 	for _, rf := range []string{"auto", "manual"} {
 		sp := &Spec{Name: "c02-nq", Refresh: rf, Q: 0}
@@ -141,7 +161,11 @@ func init() {
 			var items []Item
 			for _, sp := range c02Programs(tier) {
 				if sp.Q == 0 {
-					items = append(items, specItems("C02", sp, 1, allStrats, []string{"n>q"}, c02Oracle)...)
+					its := specItems("C02", sp, 1, allStrats, []string{"n>q"}, c02Oracle)
+					for i := range its {
+						its[i].Cfg = mcrt.Config{MaxSteps: 4000, FairAfter: 1500} // executions here have < 900 visible operations
+					}
+					items = append(items, its...)
 					continue
 				}
 				items = append(items, specItems("C02", sp, 1, []int{mcrt.StratFIFO, mcrt.StratNewest}, nil, c02Oracle)...)
